@@ -118,6 +118,28 @@ def _array_template(body, what):
     return _cond(m1.group(1), what), _count(m1.group(2), what)
 
 
+def _raw_overloads(body, cls, what):
+    """shape check of the raw-byte overloads: `<< ByteArray` (`Array<byte>` in Socket), `<< const char*`, `<< String`
+    each pass exactly (pointer to the first byte, byte length) to write(); File/Socket `>> char` / `>> byte` read
+    sizeof(x) bytes without swapping.  Nothing is generated: any other shape is a TranslateError."""
+    shapes = [
+        (r"const\s+(?:ByteArray|Array<byte>)&\s*x", r"write\(\s*(?:x\.data\(\)|&x\[0\])\s*,\s*x\.length\(\)\s*\);", "const ByteArray&"),
+        (r"const\s+char\*\s*x", r"write\(\s*x\s*,\s*\(int\)\s*strlen\(x\)\s*\);", "const char*"),
+        (r"const\s+String&\s*x", r"write\(\s*\*x\s*,\s*x\.length\(\)\s*\);", "const String&"),
+    ]
+    for par, bod, nm in shapes:
+        hs = re.findall(r"%s&\s*operator<<\s*\(\s*%s\s*\)\s*\{(.*?)\}" % (cls, par), body, re.S)
+        if len(hs) != 1:
+            raise TranslateError("%s::operator<<(%s): expected exactly one overload, found %d" % (what, nm, len(hs)))
+        if not re.fullmatch(r"\s*%s\s*return\s+\*this;\s*" % bod, hs[0]):
+            raise TranslateError("%s::operator<<(%s): body not recognised: %s" % (what, nm, " ".join(hs[0].split())[:160]))
+    if cls != "StreamBuffer":
+        for ty in ("char", "byte"):
+            hs = re.findall(r"%s&\s*operator>>\s*\(\s*%s&\s*x\s*\)\s*\{(.*?)\}" % (cls, ty), body, re.S)
+            if len(hs) != 1 or not re.fullmatch(r"\s*read\(\s*&x\s*,\s*sizeof\(x\)\s*\);\s*return\s+\*this;\s*", hs[0]):
+                raise TranslateError("%s::operator>>(%s&): not recognised" % (what, ty))
+
+
 TERM = re.compile(r"\(\s*\((unsigned short|unsigned|ULong)\)\s*_ptr\[(\d+)\]\s*(?:<<\s*(\d+))?\s*\)")
 
 
@@ -173,6 +195,16 @@ def translate(repo):
     if not m:
         raise TranslateError("class Socket not found")
     sk = cparse.find_function(sh, r"class\s+ASL_API\s+Socket\s*:\s*public\s+SmartObject\s*\{")
+
+    _raw_overloads(sb, "StreamBuffer", "StreamBuffer")
+    _raw_overloads(fb, "File", "File")
+    _raw_overloads(sk, "Socket", "Socket")
+    if not re.search(r"void\s+write\(const\s+void\*\s*data,\s*int\s+n\)\s*\{\s*append\(\(const\s+byte\*\)data,\s*n\);\s*\}", sb):
+        raise TranslateError("StreamBuffer::write not recognised")
+    if not re.search(r"ByteArray\s+read\(int\s+n\s*=\s*-1\)\s*\{\s*if\s*\(n\s*<\s*0\)\s*n\s*=\s*length\(\);\s*ByteArray\s+a\(n\);\s*memcpy\(a\.data\(\),\s*_ptr,\s*n\);\s*_ptr\s*\+=\s*n;\s*return\s+a;\s*\}", sbr):
+        raise TranslateError("StreamBufferReader::read(int) not recognised")
+    if not re.search(r"StreamBufferReader&\s*skip\(int\s+n\)\s*\{\s*_ptr\s*\+=\s*n;\s*return\s+\*this;\s*\}", sbr):
+        raise TranslateError("StreamBufferReader::skip not recognised")
 
     L = []
     L.append("/- GENERATED by tools/props/c16.py from include/asl/{defs,StreamBuffer,File,Socket}.h, src/Socket.cpp and a compiler probe — do not edit -/")
@@ -709,7 +741,7 @@ EXHAUSTIVE = {"quick": "every type x {default,BIG,LITTLE,NATIVE} x {StreamBuffer
 
 TRUSTED = ["tools/props/c16.py translate(): regex extraction (byte-order test of every operator<< / operator>>, byte count of the "
            "non-swapping Array<T> branch, shift/index terms and _ptr advance of read2/4/8, readN dispatch of the operator>> overloads, the index expression of swapBytes, "
-           "default byte orders) from include/asl/{defs,StreamBuffer,File,Socket}.h and src/Socket.cpp into lean/Gen/StreamGen.lean; "
+           "default byte orders; shape check of the raw-byte overloads, StreamBuffer::write, StreamBufferReader::read(n)/skip) from include/asl/{defs,StreamBuffer,File,Socket}.h and src/Socket.cpp into lean/Gen/StreamGen.lean; "
            "a compiled 10-line probe program for ASL_OTHER_ENDIAN, the compiler's byte order and sizeof of the 12 types",
            "the harness observes written bytes outside asl (buffer content, POSIX pread on the temp file, recv on the raw socketpair peer) "
            "and feeds readers from those observed bytes"]
@@ -727,16 +759,19 @@ LEVEL_TEXT = ("Proved in Lean 4 for all three classes, all 12 scalar types, all 
               "each scalar write appends exactly sizeof(T) bytes equal to the textbook big/little-endian encoding; Array<T> appends the "
               "concatenation of the element encodings, n*sizeof(T) bytes, and the block-copy branch reads exactly the array's storage; a whole "
               "history is the concatenation of the item encodings under the order in force (write_canonical) and a switch changes only later "
-              "bytes (switch_affects_only_later); StreamBufferReader/File/Socket reads consume sizeof(T) bytes and return the number they denote "
+              "bytes (switch_affects_only_later) and, on arbitrary data, only later reads (read_switch_affects_only_later); StreamBufferReader/File/Socket reads consume sizeof(T) bytes and return the number they denote "
               "(scalar_read_spec, for arbitrary data), read2/4/8 index only inside the bytes they consume; reading the same types in the same "
               "orders returns the original values and leaves the rest untouched for one value (get_put) and for whole histories (read_back); "
-              "length-prefixed strings read back (string_read_back). The byte-order tests, Array byte counts, read2/4/8 shift/index terms, readN "
+              "length-prefixed strings read back (string_read_back). The two switch theorems and the raw-byte cases of read_back hold by the shape "
+              "of the model (setEndian writes/reads no byte; ByteArray/String/const char* writes are the bytes themselves; read(n)/skip are take/drop): "
+              "that the real setEndian, raw-byte, String and skip transport behave so is validated by the correspondence check only, plus a "
+              "translator shape check of those overloads. The byte-order tests, Array byte counts, read2/4/8 shift/index terms, readN "
               "dispatch, swapBytes' index expression, ASL_OTHER_ENDIAN, host byte order and sizeof are regenerated from /repo on every run (G); the overload "
               "set actually selected by C++ for each type and the I/O plumbing are tied to the model by the correspondence check (K) on the three "
               "real classes, with bytes observed outside asl and an independent python serializer as second opinion.")
 LEVEL_NOTE = ("Trusted: Lean kernel, the regex translator + compiler probe, the harness. Hypotheses: memcpy/float copies preserve bit patterns, "
               "fwrite/fread/send/read transfer all bytes (partial-transfer loops belong to C17/C10). NATIVE = LITTLE in StreamBufferReader is correct "
               "only on a little-endian host: obligation gen_reader_cond fails on a big-endian build. Only K-validated (no theorem): which C++ overload "
-              "is selected per type (StreamBuffer's bool/byte/char overloads are pattern-checked by the translator, Array<byte>/ByteArray/String overloads are not), default byte orders, "
+              "is selected per type (the bodies of StreamBuffer's bool/byte/char overloads, of the ByteArray/Array<byte>/String/const char* overloads, of File/Socket >> char/byte and of StreamBufferReader::read(n)/skip are shape-checked by the translator, TranslateError otherwise), setEndian taking effect immediately, default byte orders, "
               "skip/read(n), Socket >> String truncation at NUL. Reads past the end and File/Socket >> bool of a byte other than 0/1 are outside the property "
               "(guarded in the protocol). Fixed defect 264bf86 (Array<T> in native order wrote length() bytes) is kept as a corpus witness.")
